@@ -45,16 +45,33 @@ def run(P, rep, tier):
     rep.assumptions += ['the rest of the token stream after the analysed directive is arbitrary (cut at skip_line/skip_cond_incl/eval_const_expr/...)',
                         'tokens produced by the tokenizer are newline-terminated lists ending in TK_EOF with at_bol set',
                         'equal(tok, s) compares the spelling of tok with s', 'calloc succeeds']
-    r101(P, u, T, rep)
-    dres = explore_all_directives(P, u, T, rep)
-    r101_dispatch(P, u, T, rep, dres)
-    r102(P, u, T, rep, dres)
-    r104(P, u, T, rep, dres)
-    r103(P, u, T, rep)
-    r105(P, u, T, rep)
-    r107(P, u, rep)
-    r108(P, u, T, rep, dres)
-    r106(P, rep)
+    _declare_rules(rep)
+    dres = {}
+
+    def guarded(rule, f, *args):
+        # one rule that cannot be decided must not hide what the others find
+        try:
+            return f(*args)
+        except (AnalysisBroken, Unsupported) as e:
+            rep.undecided(rule, '%s:analysis' % rule, 'the analysis of this rule could not proceed: %s' % e)
+        except Infeasible as e:
+            rep.undecided(rule, '%s:analysis' % rule, 'the analysis of this rule ran into an infeasible state outside a path: %s' % e)
+        except (KeyError, IndexError, AttributeError, TypeError, ValueError, RecursionError) as e:
+            import traceback
+            tb = traceback.format_exc().strip().splitlines()
+            rep.undecided(rule, '%s:analysis' % rule, 'internal error of the checker in this rule: %r | %s' % (e, ' / '.join(tb[-3:])))
+        return None
+    guarded('R10.1', r101, P, u, T, rep)
+    d = guarded('R10.2', explore_all_directives, P, u, T, rep)
+    dres.update(d or {})
+    guarded('R10.1', r101_dispatch, P, u, T, rep, dres)
+    guarded('R10.2', r102, P, u, T, rep, dres)
+    guarded('R10.4', r104, P, u, T, rep, dres)
+    guarded('R10.3', r103, P, u, T, rep)
+    guarded('R10.5', r105, P, u, T, rep)
+    guarded('R10.7', r107, P, u, rep)
+    guarded('R10.8', r108, P, u, T, rep, dres)
+    guarded('R10.6', r106, P, rep)
 
 
 # ------------------------------------------------------------------------------------------------ R10.1
